@@ -33,6 +33,8 @@ var errDropTable = map[string]string{
 	"(*interp.interp).callBuiltin:Seed":            "no result",
 	"(*interp.interp).execute:WriteString":         "strings.Builder.WriteString never fails",
 	"(*interp.interp).closeAll:Flush:output":       "FINAL FLUSH OF STANDARD OUTPUT - must not be dropped",
+	// by role (the stream that is closed), wherever the call sits
+	"role:Close:input": "closing an exhausted read-only input file (the current main input)",
 }
 
 func ruleOutput(c *Ctx) {
@@ -41,7 +43,7 @@ func ruleOutput(c *Ctx) {
 	nDrop := 0
 	for _, fn := range fns {
 		fn := fn
-		report := func(in ssa.Instruction, callee string, recvDesc string) {
+		report := func(in ssa.Instruction, callee string, recvDesc string, role string) {
 			nDrop++
 			k := fnKey(fn) + ":" + callee
 			key := "errdrop:" + k
@@ -60,6 +62,10 @@ func ruleOutput(c *Ctx) {
 			}
 			if why, ok := errDropTable[k]; ok {
 				c.ok(key, in.Pos(), "accepted: %s", why)
+				return
+			}
+			if why, ok := errDropTable["role:"+callee+":"+role]; ok && role != "" {
+				c.ok(key, in.Pos(), "accepted by role: %s", why)
 				return
 			}
 			c.bad(key, in.Pos(), "%s discards the error returned by %s and the site is not in the accepted table: a failed write/flush/close here goes unnoticed and the run reports success", fnKey(fn), callee)
@@ -93,6 +99,10 @@ func ruleOutput(c *Ctx) {
 			if cc.IsInvoke() && name == "Flush" {
 				recvDesc = traceInterpField(cc.Value, 0)
 			}
+			closeRole := ""
+			if cc.IsInvoke() && name == "Close" {
+				closeRole = traceInterpField(cc.Value, 0)
+			}
 			dropped := false
 			if val == nil {
 				dropped = true // deferred call: result discarded
@@ -108,7 +118,7 @@ func ruleOutput(c *Ctx) {
 				dropped = !has
 			}
 			if dropped {
-				report(in, name, recvDesc)
+				report(in, name, recvDesc, closeRole)
 			}
 		})
 	}
